@@ -737,7 +737,7 @@ func (h *hist) opAList(mail, backend string, fs []string) {
 	for _, id := range ids {
 		ks = append(ks, h.kOf(id))
 	}
-	obs := map[string]interface{}{"status": r.Status, "err": r.Err != "", "ks": ks, "changed": diffKeys(before, h.e.api.Snapshot()), "leak": r.Status != 200 && h.leaks(r)}
+	obs := map[string]interface{}{"status": r.Status, "err": r.Err != "", "ks": ks, "changed": diffKeys(before, h.e.api.Snapshot()), "leak": r.Status != 200 && h.leaks(r), "denial": h.denial(r, fs)}
 	if r.Err != "" {
 		obs["status"] = -1 // long poll (nothing pending): the client gave up after 3 s
 	}
@@ -747,6 +747,22 @@ func (h *hist) opAList(mail, backend string, fs []string) {
 }
 
 // leaks: does an error reply reveal anything about stored requests, users or backend owners?
+// denial: the text of a 401 answer to a call made without injected faults ("" otherwise).  A caller that is refused
+// must not be able to tell a backend ID that exists from one that does not.
+func (h *hist) denial(r reply, fs []string) string {
+	if r.Status != 401 || len(fs) > 0 || len(h.e.sticky) > 0 {
+		return ""
+	}
+	b := strings.TrimSpace(string(r.Body))
+	if len(b) > 200 {
+		b = b[:200]
+	}
+	if b == "" {
+		b = "(empty)"
+	}
+	return b
+}
+
 func (h *hist) leaks(r reply) bool {
 	if r.Header.Get("X-Inverting-Proxy-User-ID") != "" || r.Header.Get("X-Inverting-Proxy-Request-Start-Time") != "" {
 		return true
@@ -792,6 +808,7 @@ func (h *hist) opAFetch(mail, backend, ref string, fs []string) {
 		}
 	} else {
 		obs["leak"] = h.leaks(r)
+		obs["denial"] = h.denial(r, fs)
 	}
 	obs["owner"] = ownerBefore
 	h.emit(map[string]interface{}{"op": "afetch", "ident": mail, "backend": backend, "req": ref, "faults": fs}, obs)
@@ -809,7 +826,7 @@ func (h *hist) opARespond(mail, backend, ref string, total int, status int, cc b
 	h.e.withFaults(fs, func() {
 		r = h.e.call("agent", "POST", "/agent/response", ident{OAuth: mail}, agentHdr(backend, rid), resp, 10*time.Second, false)
 	})
-	obs := map[string]interface{}{"status": r.Status, "err": r.Err != "", "ms": r.Ms, "leak": r.Status != 200 && h.leaks(r)}
+	obs := map[string]interface{}{"status": r.Status, "err": r.Err != "", "ms": r.Ms, "leak": r.Status != 200 && h.leaks(r), "denial": h.denial(r, fs)}
 	if r.Err != "" {
 		obs["status"] = -1 // the call did not return
 	}
@@ -967,7 +984,7 @@ func (h *hist) run(nops int, faultP, bigP float64) {
 			h.opUStart(user, method, url, sz, fs, raw)
 		case x < 62: // agent list
 			mail := h.pick(append(append(agentMails, ""), agentNear...))
-			backend := h.pick(append(backendIDs, "", "nosuch", "B0", "b0 ", "b"))
+			backend := h.pick(append(backendIDs, "", "nosuch", "B0", "b0x", "b0%20", "b"))
 			if h.rng.Intn(2) == 0 {
 				ids := []string{}
 				for id := range registered {
@@ -1088,7 +1105,7 @@ func contains(l []string, s string) bool {
 
 func (h *hist) agentTarget(registered map[string]string) (mail, backend, ref string) {
 	mail = h.pick(append(append(agentMails, ""), agentNear...))
-	backend = h.pick(append(backendIDs, "", "nosuch", "B0", "b0 ", "b"))
+	backend = h.pick(append(backendIDs, "", "nosuch", "B0", "b0x", "b0%20", "b"))
 	ref = "unknown"
 	var stored []*ucall
 	for _, c := range h.calls {
@@ -1286,7 +1303,24 @@ func (h *hist) ages(id string, seconds int64) {
 	h.emit(map[string]interface{}{"op": "seen", "id": id, "age": "exact", "age_s": seconds}, map[string]interface{}{"applied": ok})
 }
 
-var scripts = []func(*hist){(*hist).scriptBothWritesFail, (*hist).scriptCronBetween, (*hist).scriptSizes, (*hist).scriptAccessMatrix, (*hist).scriptRouting, (*hist).scriptGetCache, (*hist).scriptRefresh}
+// script 7: the write that marks a request completed fails, the agent posts the response again (as its retry
+// loop does); afterwards the request must not be listed as pending any more.  Small (memcached) and large requests.
+func (h *hist) scriptCompletionRetry() {
+	h.setup()
+	for _, sz := range []int{800, 1200000} {
+		for _, fs := range [][]string{{"put_req"}, {"put_req", "mc_set"}} {
+			h.opUStart(us0, "POST", fmt.Sprintf("/cr/%d/%d", sz, len(fs)), sz, []string{}, false)
+			k := h.lastK()
+			h.opARespond(ag0, "b0", k, 900, 200, true, fs)
+			h.opARespond(ag0, "b0", k, 900, 200, true, fs)
+			h.opARespond(ag0, "b0", k, 900, 200, true, []string{})
+			h.opAList(ag0, "b0", []string{})
+		}
+	}
+}
+
+var scripts = []func(*hist){(*hist).scriptBothWritesFail, (*hist).scriptCronBetween, (*hist).scriptSizes, (*hist).scriptAccessMatrix, (*hist).scriptRouting, (*hist).scriptGetCache, (*hist).scriptRefresh,
+	(*hist).scriptCompletionRetry}
 
 // concurrentRelay: many requests in flight, all answered by agent posts that overlap in time.  Not replayed
 // on the (sequential) model: every client must get exactly the response posted under its own request ID.
